@@ -1,7 +1,7 @@
 SPECIFICATION Spec
 CONSTANTS
   Configs <- GenThorough
-  Fix = FALSE
+  Fix = TRUE
   EmitGen = TRUE
   Seed = 1
 INVARIANTS Emit
